@@ -104,6 +104,9 @@ func Drain(watchdog time.Duration) (final bool, lost string) {
 			return true, ""
 		}
 		if time.Now().After(deadline) {
+			if p == 0 {
+				return false, fmt.Sprintf("NO-WIND-DOWN workers=%d pending=0 when the watchdog fired", w)
+			}
 			return false, fmt.Sprintf("workers=%d pending=%d when the watchdog fired", w, p)
 		}
 		time.Sleep(2 * time.Millisecond)
